@@ -15,7 +15,7 @@ TEXT = ("TLC exhausts the bounded thread-level (or task-level) model of the pool
 
 CHECKS = {
     "C01": "managed", "C02": "managed", "C03": "managed", "C04": "managed", "C06": "managed", "C07": "managed",
-    "C08": "managed", "C09": "managed", "C10": "managed", "C11": "managed", "C13": "managed", "C05": "unmanaged", "C12": "unmanaged", "C14": "sync", "C15": "syncmgr", "C18": "cases", "C19": "cases",
+    "C08": "managed", "C09": "managed", "C10": "managed", "C11": "managed", "C13": "managed", "C05": "unmanaged", "C12": "unmanaged", "C14": "sync", "C15": "syncmgr", "C17": "redismgr", "C18": "cases", "C19": "cases",
 }
 EXTRA = {}
 try:
@@ -50,11 +50,11 @@ for pid in sorted(props):
             "replay_cmd_template": "./check replay {path}",
             "engine": "tlc+replay",
             "level_claimed": {"category": "model_checking",
-                              "text": TEXT % {"managed": "ManagedObs.tla", "unmanaged": "UnmanagedObs.tla", "sync": "SyncObs.tla", "syncmgr": "SyncMgrObs.tla"}[kind],
+                              "text": TEXT % {"managed": "ManagedObs.tla", "unmanaged": "UnmanagedObs.tla", "sync": "SyncObs.tla", "syncmgr": "SyncMgrObs.tla", "redismgr": "RedisObs.tla", "pgmgr": "PgObs.tla"}[kind],
                               "design_ref": "DESIGN.md section 7 (%s), sections 4-5" % pid},
             "level_note": MANAGED_NOTE,
             "technique": "explicit TLA+ spec (%s) model-checked with TLC; transition-tour replay on the real code with state comparison; TLC observation monitor"
-                         % {"managed": "ManagedPool.tla", "unmanaged": "UnmanagedPool.tla", "sync": "SyncWrapper.tla", "syncmgr": "SyncManagers.tla"}[kind],
+                         % {"managed": "ManagedPool.tla", "unmanaged": "UnmanagedPool.tla", "sync": "SyncWrapper.tla", "syncmgr": "SyncManagers.tla", "redismgr": "RedisManager.tla", "pgmgr": "PgManager.tla"}[kind],
         })
     elif pid in EXTRA.get("checks", {}):
         checks.append(EXTRA["checks"][pid])
